@@ -26,18 +26,41 @@ Inductive obs_align :=
 | OANoCall
 | OACall (fixed_is_start : bool) (fixed mobile : list nat) (restr : list (Z * Z)) (deform : list Z).
 
-Definition chk_align (start end_ : molecule nat) (restr : option (list (Z * Z)))
-  (deform : option (list Z)) (ign autog : bool) (obs : obs_align) : nat :=
-  match align_args start end_ restr deform ign autog, obs with
+Definition cmp_outcome (m : res (outcome nat)) (obs : obs_align) : nat :=
+  match m, obs with
   | Err e, OAErr e' => code (err_eqb e e')
   | Ok NoCall, OANoCall => AGREE
-  | Ok (Call c), OACall fs f m r d =>
+  | Ok (Call c), OACall fs f mo r d =>
       code (Bool.eqb (c_fixed_is_start c) fs && list_eqb Nat.eqb (c_fixed_pos c) f &&
-            list_eqb Nat.eqb (c_mobile_pos c) m && list_eqb zz_eqb (c_restr c) r &&
+            list_eqb Nat.eqb (c_mobile_pos c) mo && list_eqb zz_eqb (c_restr c) r &&
             list_eqb Z.eqb (c_deform c) d)
   | Err _, _ | _, OAErr _ => ERRMISMATCH
   | _, _ => DISAGREE
   end.
+
+Definition chk_align (start end_ : molecule nat) (restr : option (list (Z * Z)))
+  (deform : option (list Z)) (ign autog : bool) (obs : obs_align) : nat :=
+  cmp_outcome (align_args start end_ restr deform ign autog) obs.
+
+(* ---- a history of align_molecules calls sharing ONE restraint list object: per call the options,
+   what the optimiser received, and the caller's list as it is after the call *)
+Definition hist_entry : Type := option (list Z) * bool * bool * obs_align * list (Z * Z).
+
+Fixpoint cmp_history (m : list (res (outcome nat) * list (Z * Z))) (o : list hist_entry) : nat :=
+  match m, o with
+  | [], [] => AGREE
+  | (mo, ml) :: mt, (_, _, _, ob, ol) :: ot =>
+      match cmp_outcome mo ob with
+      | 0 => if list_eqb zz_eqb ml ol then cmp_history mt ot else DISAGREE
+      | c => c
+      end
+  | _, _ => DISAGREE
+  end.
+
+Definition chk_history (start end_ : molecule nat) (restr : list (Z * Z)) (entries : list hist_entry) : nat :=
+  cmp_history (align_history start end_ restr
+                 (map (fun e : hist_entry => match e with (d, i, a, _, _) => (d, i, a) end) entries))
+              entries.
 
 (* ---- remove_hydrogens called directly (kept atom tags, new restraints) *)
 Definition chk_remove (atoms : list (atom nat)) (restr : list (Z * Z))
@@ -83,6 +106,18 @@ Definition chk_manager (mc : list species)
   (r : option (list (string * rvalue))) (d : option (list (string * dvalue)))
   (i : option (list (string * ivalue))) (obs_trace : list mcall) (obs_err : option err) : nat :=
   let m := manager_align mc r d i (fun _ => Ok tt) in
+  match snd m, obs_err with
+  | Ok _, None => code (list_eqb mcall_eqb (fst m) obs_trace)
+  | Err e, Some e' => code (err_eqb e e' && list_eqb mcall_eqb (fst m) obs_trace)
+  | _, _ => ERRMISMATCH
+  end.
+
+(* ---- Manager.align_molecules(parsed, ..., parse_restrictions=False): the restrictions dictionary in
+   the caller's key order *)
+Definition chk_manager_np (mc : list species)
+  (r : option (list (string * option (list (Z * Z))))) (d : option (list (string * dvalue)))
+  (i : option (list (string * ivalue))) (obs_trace : list mcall) (obs_err : option err) : nat :=
+  let m := manager_align_noparse mc r d i (fun _ => Ok tt) in
   match snd m, obs_err with
   | Ok _, None => code (list_eqb mcall_eqb (fst m) obs_trace)
   | Err e, Some e' => code (err_eqb e e' && list_eqb mcall_eqb (fst m) obs_trace)
